@@ -6,7 +6,7 @@
     relation has no cycle; equivalence is symmetric and recorded once; a parent link is backed by a listing; lists are
     well-typed.  [WF] (HeapProofs.v) is the observer's well-formedness of DESIGN.md (Appendix B), relative to liveness. *)
 From Coq Require Import List String Bool Arith Relations.
-From LC Require Import HeapDefs HeapBase HeapInv HeapOps HeapProofs HeapTotal HeapBad HeapFrame HeapWitness HeapLive HeapFrameAll.
+From LC Require Import HeapDefs HeapBase HeapInv HeapOps HeapProofs HeapTotal HeapBad HeapFrame HeapWitness HeapLive HeapFrameAll HeapHistoryProofs.
 Import ListNotations.
 
 (** step_wf — every one of the 40 op constructors preserves the invariant, for every state, every structural-equality
@@ -238,6 +238,48 @@ Theorem C09_equivalence_symmetric_history : forall seq u ops s', no_readds seq (
   run true seq (init u) ops = Some s' -> forall a b, In b (eqs_of s' a) -> In a (eqs_of s' b).
 Proof. exact HeapFrameAll.equivalence_symmetric_history. Qed.
 Print Assumptions C09_equivalence_symmetric_history.
+
+(** THE GLOBAL INVARIANT OVER ALL OP LISTS, carve-out made exact (HeapHistoryProofs.v).
+    [is_add o]: o is add{Component,Variable,Reset,Units} of a non-null entity — the only 4 of the 41 constructor forms that can
+    break [Inv] (children name their container as parent, nothing listed twice or by two containers, no parent cycle, symmetric
+    duplicate-free equivalence, parent links backed by listings, well-typed lists).
+      - the other 37 constructors (and add* of null) preserve Inv with NO premise, in every state;
+      - the 4 add* forms preserve it exactly under the premise "the entity is not already listed by that container";
+      - for EVERY op list from the fresh universe, with no hypothesis on the history: Inv holds at the end, or the history
+        contains such a re-add, and then the FIRST one is identified (op, container, entity) and every state before it satisfies Inv;
+      - the premise is necessary: re-adding a listed variable / reset / units breaks Inv in EVERY state satisfying it. *)
+Theorem C09_step_inv_unconditional : forall seq s o s' r, is_add o = false -> Inv s -> step true seq s o = Ok s' r -> Inv s'.
+Proof. exact HeapHistoryProofs.step_inv_unconditional. Qed.
+Print Assumptions C09_step_inv_unconditional.
+
+Theorem C09_step_inv_add : forall seq s o s' r, is_add o = true -> readds s o = false -> Inv s -> step true seq s o = Ok s' r -> Inv s'.
+Proof. exact HeapHistoryProofs.step_inv_add. Qed.
+Print Assumptions C09_step_inv_add.
+
+Theorem C09_history_inv_exact : forall seq u ops s', run true seq (init u) ops = Some s' ->
+  Inv s' \/
+  exists pre o post sp k c K, ops = pre ++ o :: post /\ run true seq (init u) pre = Some sp /\ Inv sp /\
+    In c (children sp K k) /\
+    ((o = AddComponent k (Some c) /\ K = CComps) \/ (o = AddVariable k (Some c) /\ K = CVars) \/
+     (o = AddReset k (Some c) /\ K = CResets) \/ (o = AddUnits k (Some c) /\ K = CUnits)).
+Proof. exact HeapHistoryProofs.history_inv_exact. Qed.
+Print Assumptions C09_history_inv_exact.
+
+Theorem C09_history_inv_no_add : forall seq u ops s', (forall o, In o ops -> is_add o = false) ->
+  run true seq (init u) ops = Some s' -> Inv s'.
+Proof. exact HeapHistoryProofs.history_inv_no_add. Qed.
+Print Assumptions C09_history_inv_no_add.
+
+Theorem C09_readd_breaks_inv : forall seq s K k c, K <> CComps -> Inv s -> recv s k K = true -> In c (children s K k) ->
+  ~ Inv (gc (attach true seq s K k c)).
+Proof. exact HeapHistoryProofs.readd_breaks_inv. Qed.
+Print Assumptions C09_readd_breaks_inv.
+
+Example C09_history_exact_nonvacuous :
+  (exists s', run true seq_conc (init U2) H2 = Some s' /\ Inv s') /\
+  (exists s', run true seq_conc (init U2) [AddVariable 0 (Some 2); AddVariable 0 (Some 2)] = Some s' /\ ~ Inv s').
+Proof. exact HeapHistoryProofs.history_exact_nonvacuous. Qed.
+Print Assumptions C09_history_exact_nonvacuous.
 
 (** the code before the fix commits violated the property: four families, witnesses by computation *)
 Theorem C09_unfixed_lookalike_removal_refuted :
